@@ -582,7 +582,7 @@ func (d *driver) start(st *Step) *checkRun {
 		kind = "app"
 	}
 	ev := map[string]any{"ev": "req", "n": c.n, "c": c.id, "b": st.B, "f": f.Name, "kind": kind, "cookie": cookieSym,
-		"states": []any{}, "codes": []any{}, "url": "none", "qshape": "none", "expect": st.Expect,
+		"states": []any{}, "codes": []any{}, "url": "none", "qshape": "none", "expect": st.Expect, "shape": "none",
 		"cookieVia": ifs(st.CookieAs != "" && st.CookieAs != f.Name, "renamed", "own")}
 	switch kind {
 	case "logout":
@@ -640,6 +640,10 @@ func (d *driver) start(st *Step) *checkRun {
 		ev["url"] = fmt.Sprintf("u%d", idx)
 	}
 
+	if kind != "app" {
+		// the URL of this request, should the service later send the browser back to it
+		ev["url"] = d.rec.sym("url", "https://"+appHost+path)
+	}
 	headers := map[string]string{chainHdr: f.Name, ":authority": appHost}
 	if cookieVal != "" {
 		headers["cookie"] = "theme=dark; " + cname + "=" + cookieVal + "; other=1"
